@@ -26,8 +26,8 @@ RULE = ('case = batch of dependency graphs over n columns (adjacency bit masks; 
         'columns start as `1`, oracle after every edit. Both run on an engine with the stock evaluation order and on '
         'engines whose Engine._make_sorted_work_items is replaced (per instance) by a generated permutation (seed 0 = '
         'exact reverse). enumerate_cases: ALL graphs with n<=3 (2+16+512) in quick, plus ALL 65 536 graphs with n=4 in '
-        'thorough, in both kinds (the walk enumeration visits every graph once, with different column significance per '
-        'segment); the Hypothesis strategy samples sparse and dense graphs with n=5..6, 1-3 rows, generated installation '
+        'thorough, in both kinds (the walk enumeration visits every graph once per column order - 3 rotations for n=3, one '
+        'order for n=4 - alternating which column is innermost); the Hypothesis strategy samples sparse and dense graphs with n=5..6, 1-3 rows, generated installation '
         'orders and further edits. Quick-tier enumerated graphs and all sampled graphs are also re-checked after a '
         'Calculate and in a fresh engine loaded from metadata. Non-trivial graph = has a cycle AND a column that lies on no '
         'cycle; distinct by graph (a batch counts its non-trivial graphs).')
@@ -41,7 +41,7 @@ ASSUMPTIONS = ['references are same-row `$Ck` attribute reads inside one table (
                'requires an error value of any kind',
                'in batch cases the engine is reused between graphs (tables are removed); a failing batch is minimised to '
                'the graphs needed']
-BUDGET = {'quick': dict(examples=160, shards=8, max_seconds=60),
+BUDGET = {'quick': dict(examples=120, shards=8, max_seconds=60),
           'thorough': dict(examples=4000, shards=16, max_seconds=600)}
 SHRINK_BUDGET = {'quick': 120, 'thorough': 400}
 
@@ -489,7 +489,7 @@ def enumerate_cases(tier):
     yield c
   for c in walk_cases(2, [(0, 1), (1, 0)], 3):
     yield c
-  for c in walk_cases(3, list(itertools.permutations(range(3))), 9):
+  for c in walk_cases(3, [(0, 1, 2), (1, 2, 0), (2, 0, 1)], 9):
     yield c
   if tier != 'quick':
     for c in once_cases(4, 64, False, 1):
